@@ -228,6 +228,7 @@ def apply_ops(base, opnames):
 
 
 BLOCK = 60
+LOAD_BLOCK = 120
 
 
 def cases(tier):
@@ -242,6 +243,13 @@ def cases(tier):
             out.append((backend, path, "__resigned__", 0, 0, tier))
         for bn in bnames:
             out.append((backend, "ws", "__primed__" + bn, 0, 0, tier))
+        # the bulk loader itself (`nostr-relay load`, cli.load): one input file per block, with and without a `validators` entry in the
+        # storage section of the configuration
+        for vk in ("load+vkey", "load-vkey"):
+            for bn in bnames:
+                for lo in range(0, len(muts), LOAD_BLOCK):
+                    out.append((backend, vk, bn, lo, lo + LOAD_BLOCK, tier))
+            out.append((backend, vk, "__resigned__", 0, 0, tier))
     out += SCHEDMODE.cases(tier)
     return out
 
@@ -360,9 +368,91 @@ def _s_judge(x, name, backend, viol, cid, sig):
 SCHEDMODE = SchedMode(S_SCRIPTS, _s_build, _s_judge)
 
 
+def run_load_case(case):
+    """One run of the real loader command over a file: every forged line first, the genuine base event last (a forged line that got in
+    is then a stored record that does not verify, rather than a duplicate of the genuine one)."""
+    import re
+    from ..harness import World
+
+    backend, path, bn, lo, hi, tier = case
+    cid = "%s|%s" % (backend, path)
+    todo = []
+    if bn == "__resigned__":
+        todo = list(resigned_variants().items())
+    else:
+        for m in mutation_ids(tier)[lo:hi]:
+            if not m:
+                continue
+            ev = apply_ops(B()[bn], m)
+            if ev is not None:
+                todo.append(("%s|mut=%s" % (bn, "+".join(m)), ev))
+        todo.append(("%s|mut=none" % bn, B()[bn]))
+    viol = []
+    stats = {"runs": 0, "gave_up": 0, "added": 0}
+
+    def go(part):
+        """one loader run over `part` (list of (line, authentic id or None)); a loader that gives up on a line (it only expects
+        StorageError) hides the lines after it: the file is then split and both halves are loaded into fresh stores"""
+        import gc
+
+        w = World(backend, storage_options={"stats_interval": 1e15})
+        crashed = None
+        try:
+            try:
+                printed = w.cli_load([p[0] for p in part], validators_key=(path == "load+vkey"))
+            except Exception as e:
+                printed = ""
+                crashed = "%s: %s" % (type(e).__name__, e)
+            stats["runs"] += 1
+            m = re.search(r"^total: (\d+)$", printed, re.M)
+            total = int(m.group(1)) if m else None
+            good = {i for _, i, _ in part if i is not None}
+            required = {i for _, i, opt in part if i is not None and not opt}
+            for i, se in store.decode_store(backend, w.dump()).items():
+                a, why = R.authentic(se)
+                if not a:
+                    viol.append({"case": cid, "clause": "store-only-authentic", "sig": "load|" + bn,
+                                 "detail": "after `nostr-relay load` of %d lines (%s, block %d) the stored record %s is not authentic (%s)" % (len(part), bn, lo, i[:8], why)})
+            if total is not None and total > len(good):
+                viol.append({"case": cid, "clause": "ack-only-authentic", "sig": "load|" + bn,
+                             "detail": "the loader counted %d added events but only %d lines of the file (%s, block %d) are authentic" % (total, len(good), bn, lo)})
+            if total is not None and total < len(required):
+                viol.append({"case": cid, "clause": "authentic-base-accepted", "sig": "load|" + bn,
+                             "detail": "the loader added %d events but %d distinct authentic events are in the file (%s, block %d) (non-vacuity)" % (total, len(required), bn, lo)})
+            stats["added"] += total or 0
+        finally:
+            w.close()
+            # a loader that gave up leaves frames, tasks and storage objects in reference cycles: collect them here, not at a
+            # moment the allocator chooses inside a later case
+            gc.collect()
+        if crashed is not None:
+            stats["gave_up"] += 1
+            if len(part) > 1:
+                h = len(part) // 2
+                go(part[:h])
+                go(part[h:])
+
+    pairs = []
+    for i, (name, ev) in enumerate(todo):
+        try:
+            line = json.dumps(ev if i % 2 else ["EVENT", ev], ensure_ascii=False)  # both line shapes the loader accepts
+        except (TypeError, ValueError):
+            continue
+        # unknown extra members: NIP-01 is silent, refused or loaded either way
+        pairs.append((line, ev["id"] if R.authentic(ev)[0] else None, "extra_field" in name))
+    lines = [p[0] for p in pairs]
+    go(pairs)
+    total, crashed = stats["added"], stats["gave_up"]
+    return {"id": "%s|%s|%s|%d" % (backend, path, bn, lo), "viol": viol, "outcome": None, "evals": max(len(lines), 1), "nontrivial": bool(lines),
+            "desc": describe(case), "extra": {"submissions": len(lines), "accepted": total or 0},
+            "sample": {"backend": backend, "path": path, "base": bn, "submissions": len(lines), "accepted": total, "loader_runs": stats["runs"], "loader_gave_up": crashed}}
+
+
 def run_case(case):
     if case[0] == "sched":
         return SCHEDMODE.run(case)
+    if case[1].startswith("load"):
+        return run_load_case(case)
     backend, path, bn, lo, hi, tier = case
     sess = seq.session(backend)
     viol = []
@@ -428,7 +518,7 @@ def coverage(tier, agg):
         "rule": ("9 valid base events (ephemeral, plain, tagged, unicode content, NIP-26 delegated, replaceable, deletion, parameterized replaceable with a bare d tag, one signed by the relay's service key) x [identity + %d single mutation "
                 "operators + %s pairs of operators on distinct fields] + %d re-signed structurally wrong variants (forged/transplanted/"
                 "wrong-condition/truncated/bare/non-string delegation, string kind, wrong signer, upper-case pubkey, malformed tags with a "
-                "consistent id and a signature that fails only inside verification), x {websocket EVENT, direct add_event} x {sql, kv}; all single "
+                "consistent id and a signature that fails only inside verification), x {websocket EVENT, direct add_event, the real bulk loader command cli.load over a file (forged lines first, genuine last; storage section with and without a validators entry; the loader builds its own storage through get_storage())} x {sql, kv}; all single "
                 "mutations and re-signed variants once more right after a genuine event was acknowledged on the same connection; oracle: OK=true only for authentic submissions, every pushed event and every stored record is authentic under an "
                 "independent strict verifier; authentic submissions are accepted (non-vacuity)" + SCHEDMODE.rule() + ": a forged copy (bad signature / other content under "
                 "the same id and sig) and the genuine event are in flight on two connections at once; the forged copy is never acknowledged true, pushed or stored") % (
